@@ -32,7 +32,7 @@ def _load_known(pid):
 
 def _describe(group, case):
     keys = ["path", "method", "cfg_name", "enabled_sets", "disable_csrf", "disable_header_check", "cfg_host", "whitelist",
-            "username", "password", "token", "host_header", "origin_header", "referer_header", "authorization", "csrf_token_header", "ctype", "acrm", "status", "response"]
+            "username", "password", "token", "host_header", "origin_header", "referer_header", "authorization", "csrf_token_header", "ctype", "acrm", "history", "step", "token_expires_in_ms", "status", "response"]
     return "%s: %s" % (group, json.dumps({k: case.get(k) for k in keys if k in case}))
 
 
@@ -47,6 +47,7 @@ SPEC = {
     "groups": {
         "access": ("mism_access", "pf_access"),
         "csrf_old_token": ("mism_csrf_old_token", "pf_csrf_old_token"),
+        "token_history": ("mism_token_history", "pf_token_history"),
         "patterns": ("mism_patterns", None),
     },
     "describe": _describe,
@@ -59,7 +60,7 @@ SPEC = {
         "oracle data taken from the libraries the code itself calls: net/http Request.BasicAuth, net/url Parse(..).Host, iputil.IsLocalhost/SplitAddr of the configured host; HMAC-SHA256 of a CSRF token is one bit (mac_ok) computed with the process key; base64/JSON decoding of the token are bits",
         "observable: HTTP status with a gateway stub that panics (0 = endpoint logic reached); with the stub a handler never answers 401/403 itself, answers 415 only on v1 (wallet/transaction) and 405 only on endpoints registered without a method table",
         "net/http ServeMux routing (exact pattern, else '/'), gzip and ElapsedHandler wrappers are assumed transparent; path cleaning redirects, CONNECT, HTTP/2 and TLS are not modelled; GUI static-file registrations are only shape-checked (C27_gui_routes_shape)",
-        "time: token expiry is compared with time.Now() inside the implementation; cases use expiries at least 2 s away from the request time",
+        "time: token expiry is compared with time.Now() inside the implementation; cases use expiries at least 2 s away from the request time, the request histories (group token_history) at least 150 ms",
     ],
     "assumptions": [
         "configurations for which newServerMux does not panic (a localhost host must carry a port)",
